@@ -317,22 +317,27 @@ fn acc_step<A: Iterator<Item = text2num::Occurence>, B: Iterator<Item = text2num
     }
 }
 
-fn schedules(ctx: &Ctx, acc: &mut Acc, l: L, tier: Tier) {
+fn schedules(ctx: &Ctx, acc: &mut Acc, l: L, tier: Tier, instrumented: bool) {
     let expected: Vec<String> = (0..NCALLS).map(|i| call(&l.facade(), l, i)).collect();
     let shared: Arc<ForceShare<Language>> = Arc::new(ForceShare(l.facade()));
     let mk = |calls: Vec<usize>| -> Body<Vec<String>> {
         let sh = shared.clone();
         Arc::new(move || calls.iter().map(|&c| call(&sh.0, l, c)).collect())
     };
-    let ncalls = tier.pick(5usize, SCHED_CALLS);
+    // the instrumented build has many more scheduling points per call: fewer programs, same bounds
+    let ncalls = if instrumented { tier.pick(3usize, 5) } else { tier.pick(5usize, SCHED_CALLS) };
     let bound = tier.pick(1usize, 2);
+    // call indices used when instrumented: validator on a compound, scanner on P1, text path on P2
+    let pick = |i: usize| -> usize { if instrumented { [4usize, 0, 5, 3, 2][i] } else { i } };
     let mut programs: Vec<Vec<Vec<usize>>> = vec![];
     for a in 0..ncalls {
         for b in 0..ncalls {
-            programs.push(vec![vec![a], vec![b]]);
+            programs.push(vec![vec![pick(a)], vec![pick(b)]]);
         }
     }
-    if tier == Tier::Thorough {
+    if instrumented {
+        // nothing else: keep the instrumented exploration small
+    } else if tier == Tier::Thorough {
         // two calls per thread, and three threads
         for a in [0usize, 2, 3, 5] {
             for b in [1usize, 3, 6] {
@@ -369,6 +374,17 @@ fn schedules(ctx: &Ctx, acc: &mut Acc, l: L, tier: Tier) {
         acc.traces += ex.executions;
         acc.count("schedules_infeasible", ex.infeasible);
         acc.count("schedules_with_a_blocked_thread_left_loose", ex.overlapped);
+        for d in ex.deadlocks.iter().take(1) {
+            ctx.report(acc, Violation {
+                lang: l.code().into(),
+                entry: "schedule".into(),
+                input: format!("{name} ; schedule (choice index per scheduling point) {d:?}"),
+                threshold: None,
+                clause: "concurrent calls sharing the interpreter return (no deadlock)".into(),
+                expected: "every call returns".into(),
+                observed: format!("every live thread waits for a lock; {} of {} explored schedules deadlock", ex.deadlocks.len(), ex.executions),
+            });
+        }
         acc.count("programs", 1);
         for o in &outcomes {
             acc.outcome(&(l.code(), o));
@@ -396,6 +412,171 @@ fn schedules(ctx: &Ctx, acc: &mut Acc, l: L, tier: Tier) {
             acc.sample(json!({"lang": l.code(), "program": name, "schedules": ex.executions, "scheduling_points": ex.max_points, "distinct_outcomes": outcomes.len()}));
         }
     }
+}
+
+/// Generate the scheduler-instrumented copy of the library: /repo's sources with `std::sync`
+/// redirected to the `verif_sync` wrappers (shim/verif_sync.rs). /repo itself is not touched.
+fn make_shim_copy() -> Result<String, String> {
+    let root = verif_root();
+    let repo = format!("{root}/harness/repo");
+    let dst = format!("{root}/target/shim-src");
+    let _ = std::fs::remove_dir_all(&dst);
+    std::fs::create_dir_all(format!("{dst}/src")).map_err(|e| e.to_string())?;
+    for f in ["Cargo.toml", "Cargo.lock"] {
+        std::fs::copy(format!("{repo}/{f}"), format!("{dst}/{f}")).map_err(|e| format!("{f}: {e}"))?;
+    }
+    let direct = regex::Regex::new(r"(?P<pre>^|[^:\w])std::sync\b").unwrap();
+    let grouped = regex::Regex::new(r"^(?P<ind>\s*)(?P<vis>pub(?:\([a-z]+\))? )?use std::\{(?P<body>[^{}]*)\};\s*$").unwrap();
+    fn walk(dir: &std::path::Path, out: &mut Vec<std::path::PathBuf>) {
+        if let Ok(rd) = std::fs::read_dir(dir) {
+            for e in rd.flatten() {
+                let p = e.path();
+                if p.is_dir() {
+                    walk(&p, out)
+                } else {
+                    out.push(p)
+                }
+            }
+        }
+    }
+    let mut files = vec![];
+    let src_root = std::path::PathBuf::from(format!("{repo}/src"));
+    walk(&src_root, &mut files);
+    let mut rewritten = 0usize;
+    for f in files {
+        let rel = f.strip_prefix(&src_root).map_err(|e| e.to_string())?;
+        let to = std::path::PathBuf::from(format!("{dst}/src")).join(rel);
+        if let Some(parent) = to.parent() {
+            std::fs::create_dir_all(parent).map_err(|e| e.to_string())?;
+        }
+        if f.extension().map_or(false, |e| e == "rs") {
+            let text = std::fs::read_to_string(&f).map_err(|e| e.to_string())?;
+            let mut out = String::with_capacity(text.len() + 64);
+            for line in text.lines() {
+                if line.contains("YIELD_HOOK") {
+                    out.push_str(line); // the hook's own cell stays on std
+                } else if let Some(c) = grouped.captures(line) {
+                    // `use std::{a::B, sync::C, sync::{D, E}}` on one line without nested braces: split the sync parts off
+                    let (ind, vis) = (&c["ind"], c.name("vis").map_or("", |m| m.as_str()));
+                    let mut keep = vec![];
+                    let mut moved = vec![];
+                    for part in c["body"].split(',').map(|x| x.trim()).filter(|x| !x.is_empty()) {
+                        if let Some(rest) = part.strip_prefix("sync::") {
+                            moved.push(rest.to_string())
+                        } else if part == "sync" {
+                            moved.push("self as sync".to_string())
+                        } else {
+                            keep.push(part.to_string())
+                        }
+                    }
+                    if moved.is_empty() {
+                        out.push_str(line);
+                    } else {
+                        rewritten += 1;
+                        if !keep.is_empty() {
+                            out.push_str(&format!("{ind}{vis}use std::{{{}}};\n", keep.join(", ")));
+                        }
+                        out.push_str(&format!("{ind}{vis}use crate::verif_sync::{{{}}};", moved.join(", ")));
+                    }
+                } else if direct.is_match(line) {
+                    rewritten += 1;
+                    out.push_str(&direct.replace_all(line, "${pre}crate::verif_sync"));
+                } else {
+                    out.push_str(line);
+                }
+                out.push('\n');
+            }
+            if rel == std::path::Path::new("lib.rs") {
+                out.push_str("\n#[doc(hidden)]\npub mod verif_sync;\n");
+            }
+            std::fs::write(&to, out).map_err(|e| e.to_string())?;
+        } else {
+            std::fs::copy(&f, &to).map_err(|e| e.to_string())?;
+        }
+    }
+    std::fs::copy(format!("{root}/shim/verif_sync.rs"), format!("{dst}/src/verif_sync.rs")).map_err(|e| format!("shim/verif_sync.rs: {e}"))?;
+    Ok(format!("{rewritten} line(s) of the library redirected from std::sync to the instrumented wrappers"))
+}
+
+/// Stage run by the instrumented build (`t2n-verif-sync C14-shim`): thread programs only, with
+/// scheduling points at every synchronisation operation of the library. Prints JSON lines.
+pub fn shim_child(tier: Tier) -> i32 {
+    let ctx = Ctx::new("C14", tier);
+    let mut acc = Acc::new();
+    text2num::verif::set_yield_hook(sched::point);
+    #[cfg(feature = "shim")]
+    text2num::verif_sync::set_hooks(sched::point, sched::blocked);
+    for l in langs::ALL {
+        schedules(&ctx, &mut acc, l, tier, true);
+    }
+    println!("{}", json!({"stat": [acc.states, acc.transitions, acc.traces], "counters": acc.extra, "instrumented": cfg!(feature = "shim")}));
+    for v in &acc.viols {
+        println!("{}", json!({"viol": v.to_json("C14")}));
+    }
+    0
+}
+
+/// Build and run the instrumented variant; merge what it found. A failure to build the variant is
+/// reported in the evidence and on stdout but is not a verdict on the property.
+fn shim_stage(ctx: &Ctx, acc: &mut Acc, tier: Tier) -> String {
+    let root = verif_root();
+    let made = match make_shim_copy() {
+        Ok(m) => m,
+        Err(e) => return format!("skipped: could not generate the instrumented copy: {e}"),
+    };
+    let build = Command::new("cargo")
+        .args(["build", "--release", "--offline", "--quiet", "--target-dir", &format!("{root}/target/sync")])
+        .current_dir(format!("{root}/harness-sync"))
+        .env("CARGO_NET_OFFLINE", "true")
+        .stdin(Stdio::null())
+        .output();
+    match build {
+        Ok(o) if o.status.success() => {}
+        Ok(o) => {
+            let err = String::from_utf8_lossy(&o.stderr);
+            let first = err.lines().filter(|l| l.starts_with("error")).take(3).collect::<Vec<_>>().join(" | ");
+            return format!("skipped: the instrumented copy does not build ({first})");
+        }
+        Err(e) => return format!("skipped: cannot run cargo: {e}"),
+    }
+    let out = Command::new(format!("{root}/target/sync/release/t2n-verif-sync"))
+        .args(["C14-shim", "--tier", tier.name()])
+        .env("VERIF_ROOT", root)
+        .stdin(Stdio::null())
+        .stderr(Stdio::null())
+        .output();
+    let out = match out {
+        Ok(o) if o.status.success() => String::from_utf8_lossy(&o.stdout).to_string(),
+        Ok(o) => return format!("skipped: instrumented run exited with {}", o.status),
+        Err(e) => return format!("skipped: cannot run the instrumented binary: {e}"),
+    };
+    let mut execs = 0u64;
+    for line in out.lines() {
+        let Ok(v) = serde_json::from_str::<serde_json::Value>(line) else { continue };
+        if let Some(st) = v.get("stat") {
+            execs = st[0].as_u64().unwrap_or(0);
+            acc.states += execs;
+            acc.transitions += st[1].as_u64().unwrap_or(0);
+            acc.traces += st[2].as_u64().unwrap_or(0);
+            if let Some(c) = v["counters"].as_object() {
+                for (k, n) in c {
+                    acc.count(&format!("instrumented_{k}"), n.as_u64().unwrap_or(0));
+                }
+            }
+        }
+        if let Some(x) = v.get("viol") {
+            ctx.report(acc, Violation {
+                lang: x["language"].as_str().unwrap_or("").into(),
+                entry: "schedule_instrumented".into(),
+                input: x["input"].as_str().unwrap_or("").into(),
+                threshold: None,
+                clause: x["clause"].as_str().unwrap_or("").into(),
+                expected: x["expected"].as_str().unwrap_or("").into(),
+                observed: x["observed"].as_str().unwrap_or("").into(),
+            });
+        }
+    }
+    format!("ran: {made}; {execs} schedules executed on the instrumented build")
 }
 
 /// child: run every call of every language with the real standard streams in place; print nothing.
@@ -432,13 +613,17 @@ pub fn run(tier: Tier) -> i32 {
     cross_language_histories(&ctx, &mut acc, tier.pick(2, 3));
     // 2. schedules (sequential over languages: the scheduler owns the threads)
     for l in langs::ALL {
-        schedules(&ctx, &mut acc, l, tier);
+        schedules(&ctx, &mut acc, l, tier, false);
     }
+    // 2b. the same kind of exploration on a build whose own synchronisation operations are scheduling points
+    let shim_note = shim_stage(&ctx, &mut acc, tier);
+    println!("C14 instrumented-synchronisation stage: {shim_note}");
     // 3. Send + Sync compile probe
     acc.states += 1;
     acc.traces += 1;
     let probe = Command::new("cargo")
-        .args(["check", "--offline", "--quiet", "--manifest-path", &format!("{}/probes/sendsync/Cargo.toml", verif_root())])
+        .args(["check", "--offline", "--quiet", "--target-dir", &format!("{}/target/probe", verif_root())])
+        .current_dir(format!("{}/probes/sendsync", verif_root()))
         .env("CARGO_NET_OFFLINE", "true")
         .stdin(Stdio::null())
         .output();
@@ -484,6 +669,7 @@ pub fn run(tier: Tier) -> i32 {
         "exhaustive": true,
         "rule": "(1) every history of <= k calls from a 10-call alphabet (whole calls and abandoned lazy scans) on one shared interpreter and on two interleaved interpreters, plus every merge order of the next() calls of two live lazy searches; (2) for 2-thread (and some 3-thread) programs over the call alphabet sharing one interpreter, every interleaving of scheduling points (call boundaries + every library callback into harness code: stream next(), first Token/BasicAnnotate method call per token, set_nan, Replace::replace + through the cfg-guarded yield hook the entry of every mutating DigitString operation inside the library) with at most `preemption_bound` preemptions, explored by re-execution under a controlled scheduler (one thread runs at a time); every call's result compared with its sequential fresh-interpreter result; (3) compile probe for Send + Sync; (4) child process with piped stdout/stderr",
         "bounds": {"history_depth": tier.pick(2, 3), "preemption_bound_two_threads": tier.pick(1, 2), "threads": "2 (all ordered call pairs), 3 (selected)", "calls": (0..NCALLS).map(call_name).collect::<Vec<_>>()},
+        "instrumented_synchronisation_stage": shim_note,
         "note": "states = histories + merge orders + schedules executed; one distinct outcome per program is expected on code without shared mutable state; detection power is demonstrated by seeded mutants (DESIGN.md)",
     });
     ctx.finish(acc, cov, vec![
